@@ -25,6 +25,10 @@ Proof.
   - inversion H; subst. apply zs_eqb_spec. reflexivity.
   - apply Z.eqb_eq in H. congruence.
   - inversion H; subst. apply Z.eqb_refl.
+  - apply Bool.eqb_prop in H. congruence.
+  - inversion H; subst. apply Bool.eqb_reflx.
+  - apply Z.eqb_eq in H. congruence.
+  - inversion H; subst. apply Z.eqb_refl.
 Qed.
 
 Lemma key_eqb_refl : forall a, key_eqb a a = true.
@@ -221,13 +225,53 @@ Section Sim.
     | _, _ => False
     end.
 
+  Definition exp_rel (a : option (list D1 * list val)) (b : option (list D2 * list val)) : Prop :=
+    match a, b with
+    | Some (h1, e1), Some (h2, e2) => Forall2 R h1 h2 /\ e1 = e2
+    | None, None => True
+    | _, _ => False
+    end.
+
+  Lemma expand_sim : forall es h1 h2, Forall2 R h1 h2 -> exp_rel (expand I1 h1 es) (expand I2 h2 es).
+  Proof.
+    induction es as [|e es IH]; intros h1 h2 Hh; cbn [expand]; [split; [exact Hh | reflexivity]|].
+    assert (Hplain : exp_rel (match expand I1 h1 es with Some (h', r') => Some (h', e :: r') | None => None end)
+                             (match expand I2 h2 es with Some (h', r') => Some (h', e :: r') | None => None end)).
+    { pose proof (IH h1 h2 Hh) as H. unfold exp_rel in *.
+      destruct (expand I1 h1 es) as [[a1 b1]|], (expand I2 h2 es) as [[a2 b2]|]; try contradiction; [|exact I].
+      destruct H as [H1 H2]. split; [exact H1 | congruence]. }
+    destruct e; try exact Hplain. destruct l as [|k [|v rest]]; try exact Hplain. destruct v; try exact Hplain.
+    pose proof (build_sim elems _ _ sim_empty) as Hb. unfold orel in Hb.
+    destruct (build I1 (di_empty I1) elems) as [d1|], (build I2 (di_empty I2) elems) as [d2|]; try contradiction; [|exact I].
+    pose proof (IH (h1 ++ [d1]) (h2 ++ [d2]) (F2_snoc _ _ _ _ Hh Hb)) as H. unfold exp_rel in *.
+    rewrite (F2_len _ _ Hh).
+    destruct (expand I1 (h1 ++ [d1]) es) as [[a1 b1]|], (expand I2 (h2 ++ [d2]) es) as [[a2 b2]|]; try contradiction; [|exact I].
+    destruct H as [H1 H2]. split; [exact H1 | congruence].
+  Qed.
+
+  Lemma lit_parses_sim : forall es, lit_parses I1 es = lit_parses I2 es.
+  Proof.
+    intro es. unfold lit_parses. pose proof (expand_sim es [] [] (Forall2_nil R)) as H. unfold exp_rel in H.
+    destruct (expand I1 [] es) as [[a1 b1]|], (expand I2 [] es) as [[a2 b2]|]; try contradiction; [|reflexivity].
+    destruct H as [_ H]. subst b2. pose proof (build_sim b1 _ _ sim_empty) as Hb. unfold orel in Hb.
+    destruct (build I1 (di_empty I1) b1), (build I2 (di_empty I2) b1); try contradiction; reflexivity.
+  Qed.
+
   Lemma eval_lit_sim : forall f s1 s2 site es, srel s1 s2 ->
     lit_rel (eval_lit I1 f s1 site es) (eval_lit I2 f s2 site es).
   Proof.
-    intros f s1 s2 site es [Hh [He [Hf Hs]]]. unfold eval_lit.
-    pose proof (build_sim es _ _ sim_empty) as Hb. unfold orel in Hb.
-    destruct (build I1 (di_empty I1) es) as [d1|], (build I2 (di_empty I2) es) as [d2|]; try contradiction; [|exact I].
-    rewrite Hs, (F2_len _ _ Hh).
+    intros f s1 s2 site es [Hh [He [Hf Hs]]]. unfold eval_lit. rewrite (lit_parses_sim es).
+    destruct (lit_parses I2 es); cbn [negb]; [|exact I].
+    assert (Hex : exp_rel (if lit_copy f && lit_nested f then expand I1 (heap s1) es else Some (heap s1, es))
+                          (if lit_copy f && lit_nested f then expand I2 (heap s2) es else Some (heap s2, es))).
+    { destruct (lit_copy f && lit_nested f); [apply expand_sim; exact Hh | split; [exact Hh | reflexivity]]. }
+    unfold exp_rel in Hex.
+    destruct (if lit_copy f && lit_nested f then expand I1 (heap s1) es else Some (heap s1, es)) as [[h1 e1]|],
+             (if lit_copy f && lit_nested f then expand I2 (heap s2) es else Some (heap s2, es)) as [[h2 e2]|]; try contradiction; [|exact I].
+    destruct Hex as [Hh1 Hee]. subst e2.
+    pose proof (build_sim e1 _ _ sim_empty) as Hb. unfold orel in Hb.
+    destruct (build I1 (di_empty I1) e1) as [d1|], (build I2 (di_empty I2) e1) as [d2|]; try contradiction; [|exact I].
+    rewrite Hs, (F2_len _ _ Hh), (F2_len _ _ Hh1).
     destruct (lit_copy f).
     - cbn. split; [|reflexivity]. unfold srel; cbn. repeat split; try assumption. apply F2_snoc; assumption.
     - destruct (lookup (shared s2) site).
@@ -270,8 +314,7 @@ Section Sim.
         unfold srel, bind; cbn. repeat split; try assumption. congruence.
       + same_state Hs.
     - (* ODefFn *)
-      pose proof (build_sim elems _ _ sim_empty) as Hb. unfold orel in Hb.
-      destruct (build I1 (di_empty I1) elems), (build I2 (di_empty I2) elems); try contradiction.
+      rewrite (lit_parses_sim elems). destruct (lit_parses I2 elems).
       + split; [|reflexivity]. unfold srel; cbn. repeat split; try assumption; congruence.
       + same_state Hs.
     - (* OCall *)
@@ -386,6 +429,8 @@ Proof.
   - unfold text_eqb; cbn. apply zs_eqb_spec. reflexivity.
   - apply zs_eqb_spec. reflexivity.
   - reflexivity.
+  - apply Z.eqb_refl.
+  - unfold num_eqb. cbn. apply Bool.eqb_reflx.
   - apply Z.eqb_refl.
 Qed.
 
@@ -561,13 +606,15 @@ Section ModelSpec.
   Qed.
 End ModelSpec.
 
-Lemma step_flags_ext : forall D X (I : dict_impl D X) f g o s, lit_copy f = lit_copy g -> step I f o s = step I g o s.
-Proof. intros D X I f g o s H. destruct o; cbn [step]; unfold eval_lit; rewrite ?H; reflexivity. Qed.
+Lemma step_flags_ext : forall D X (I : dict_impl D X) f g o s, lit_copy f = lit_copy g -> lit_nested f = lit_nested g ->
+  step I f o s = step I g o s.
+Proof. intros D X I f g o s H H2. destruct o; cbn [step]; unfold eval_lit; rewrite ?H, ?H2; reflexivity. Qed.
 
-Lemma run_flags_ext : forall D X (I : dict_impl D X) f g ops s, lit_copy f = lit_copy g -> run I f ops s = run I g ops s.
+Lemma run_flags_ext : forall D X (I : dict_impl D X) f g ops s, lit_copy f = lit_copy g -> lit_nested f = lit_nested g ->
+  run I f ops s = run I g ops s.
 Proof.
-  intros D X I f g ops. induction ops as [|o ops IH]; intros s H; cbn [run]; [reflexivity|].
-  rewrite (step_flags_ext D X I f g o s H). destruct (step I g o s) as [s1 r]. rewrite (IH s1 H). reflexivity.
+  intros D X I f g ops. induction ops as [|o ops IH]; intros s H H2; cbn [run]; [reflexivity|].
+  rewrite (step_flags_ext D X I f g o s H H2). destruct (step I g o s) as [s1 r]. rewrite (IH s1 H H2). reflexivity.
 Qed.
 
 Definition model_run (f : flags) (ops : list op) : state dict * list (res val) :=
@@ -581,11 +628,11 @@ Lemma init_ref : state_ref init_state init_state.
 Proof. unfold state_ref, srel; cbn. repeat split; constructor. Qed.
 
 (* T10.refine *)
-Theorem refine : forall f ops, sym_guard f = true -> char_guard f = true -> lit_copy f = true ->
+Theorem refine : forall f ops, sym_guard f = true -> char_guard f = true -> lit_copy f = true -> lit_nested f = true ->
   state_ref (fst (model_run f ops)) (fst (spec_run ops)) /\
   Forall2 obs_ref (snd (model_run f ops)) (snd (spec_run ops)).
 Proof.
-  intros f ops Hs Hc Hl. unfold model_run, spec_run.
+  intros f ops Hs Hc Hl Hn. unfold model_run, spec_run.
   rewrite (run_flags_ext _ _ spec_impl spec_flags f ops init_state) by (cbn; congruence).
   assert (Hg : good f) by (split; assumption).
   apply (run_sim (model_impl f) spec_impl dict_ref visits_ref
@@ -615,13 +662,33 @@ Proof.
   unfold spec_heap_wf in H. rewrite Forall_forall in H. apply H. eapply nth_error_In. exact E.
 Qed.
 
+Lemma spec_expand_wf : forall es h h' es', Forall fm_wf h -> expand spec_impl h es = Some (h', es') -> Forall fm_wf h'.
+Proof.
+  induction es as [|e es IH]; intros h h' es' H He; cbn [expand] in He; [inversion He; subst; exact H|].
+  assert (Hplain : (match expand spec_impl h es with Some (h0, r') => Some (h0, e :: r') | None => None end) = Some (h', es') -> Forall fm_wf h').
+  { intro Hp. destruct (expand spec_impl h es) as [[a b]|] eqn:E; [|discriminate]. inversion Hp; subst. apply (IH h h' b H E). }
+  destruct e; try (apply Hplain; exact He). destruct l as [|k [|v rest]]; try (apply Hplain; exact He).
+  destruct v; try (apply Hplain; exact He).
+  destruct (build spec_impl (di_empty spec_impl) elems) as [d|] eqn:Eb; [|discriminate].
+  destruct (expand spec_impl (h ++ [d]) es) as [[a b]|] eqn:E; [|discriminate]. inversion He; subst.
+  apply (IH (h ++ [d]) h' b); [|exact E]. apply Forall_app. split; [exact H|].
+  constructor; [apply (spec_build_wf elems [] (NoDup_nil _) d Eb) | constructor].
+Qed.
+
 Lemma spec_lit_wf : forall f s site es s' l, spec_heap_wf s -> eval_lit spec_impl f s site es = Some (s', l) -> spec_heap_wf s'.
 Proof.
   intros f s site es s' l H He. unfold eval_lit in He.
-  destruct (build spec_impl (di_empty spec_impl) es) as [d|] eqn:Eb; [|discriminate].
-  assert (Hd : fm_wf d) by (apply (spec_build_wf es [] (NoDup_nil _) d Eb)).
+  destruct (negb (lit_parses spec_impl es)); [discriminate|].
+  destruct (if lit_copy f && lit_nested f then expand spec_impl (heap s) es else Some (heap s, es)) as [[h1 e1]|] eqn:Ex; [|discriminate].
+  assert (Hh1 : Forall fm_wf h1 /\ (lit_copy f = false -> h1 = heap s)).
+  { destruct (lit_copy f && lit_nested f) eqn:Ec.
+    - split; [apply (spec_expand_wf es (heap s) h1 e1 H Ex)|]. intro Hf. rewrite Hf in Ec. discriminate.
+    - inversion Ex; subst. split; [exact H | reflexivity]. }
+  destruct Hh1 as [Hh1 _].
+  destruct (build spec_impl (di_empty spec_impl) e1) as [d|] eqn:Eb; [|discriminate].
+  assert (Hd : fm_wf d) by (apply (spec_build_wf e1 [] (NoDup_nil _) d Eb)).
   destruct (lit_copy f).
-  - inversion He; subst. unfold spec_heap_wf; cbn. apply Forall_app. split; [exact H | constructor; [exact Hd | constructor]].
+  - inversion He; subst. unfold spec_heap_wf; cbn. apply Forall_app. split; [exact Hh1 | constructor; [exact Hd | constructor]].
   - destruct (lookup (shared s) site).
     + inversion He; subst. exact H.
     + inversion He; subst. unfold spec_heap_wf; cbn. apply Forall_app. split; [exact H | constructor; [exact Hd | constructor]].
@@ -631,7 +698,7 @@ Lemma spec_step_wf : forall f o s, spec_heap_wf s -> spec_heap_wf (fst (step spe
 Proof.
   intros f o s H. destruct o; cbn [step].
   - destruct (eval_lit spec_impl f s site elems) as [[s' l]|] eqn:E; [|exact H]. cbn. apply (spec_lit_wf f s site elems s' l H E).
-  - destruct (build spec_impl (di_empty spec_impl) elems); exact H.
+  - destruct (lit_parses spec_impl elems); exact H.
   - destruct (lookup (env s) f0) as [[]|]; try exact H. destruct (lookup (fdefs s) id) as [es|]; [|exact H].
     destruct (eval_lit spec_impl f s id es) as [[s' l]|] eqn:E; [|exact H]. cbn. apply (spec_lit_wf f s id es s' l H E).
   - destruct (lookup (env s) m); exact H.
@@ -748,21 +815,47 @@ Qed.
 Section Fresh.
   Context {D X : Type} (I : dict_impl D X) (f : flags).
 
+  Lemma expand_app : forall es h h' es', expand I h es = Some (h', es') -> exists ds, h' = h ++ ds.
+  Proof.
+    induction es as [|e es IH]; intros h h' es' He; cbn [expand] in He; [inversion He; subst; exists []; rewrite app_nil_r; reflexivity|].
+    assert (Hplain : (match expand I h es with Some (h0, r') => Some (h0, e :: r') | None => None end) = Some (h', es') -> exists ds, h' = h ++ ds).
+    { intro Hp. destruct (expand I h es) as [[a b]|] eqn:E; [|discriminate]. inversion Hp; subst. apply (IH h h' b E). }
+    destruct e; try (apply Hplain; exact He). destruct l as [|k [|v rest]]; try (apply Hplain; exact He).
+    destruct v; try (apply Hplain; exact He).
+    destruct (build I (di_empty I) elems) as [d|]; [|discriminate].
+    destruct (expand I (h ++ [d]) es) as [[a b]|] eqn:E; [|discriminate]. inversion He; subst.
+    destruct (IH (h ++ [d]) h' b E) as [ds Hds]. exists (d :: ds). rewrite Hds, <- app_assoc. reflexivity.
+  Qed.
+
+  (* a literal evaluation with the copy: the dictionary it returns sits beyond every earlier location, earlier
+     dictionaries are untouched (nested literals get locations of their own in between) *)
   Lemma eval_lit_copy : forall st site es st' l, lit_copy f = true ->
     eval_lit I f st site es = Some (st', l) ->
-    l = length (heap st) /\ (exists d, heap st' = heap st ++ [d]) /\ env st' = env st.
+    (length (heap st) <= l < length (heap st'))%nat /\ (exists ds, heap st' = heap st ++ ds) /\ env st' = env st.
   Proof.
-    intros st site es st' l Hc H. unfold eval_lit in H. destruct (build I (di_empty I) es) as [d|]; [|discriminate].
-    rewrite Hc in H. inversion H; subst. cbn. split; [reflexivity|]. split; [exists d; reflexivity | reflexivity].
+    intros st site es st' l Hc H. unfold eval_lit in H. destruct (negb (lit_parses I es)); [discriminate|].
+    rewrite Hc in H. cbn [andb] in H.
+    destruct (if lit_nested f then expand I (heap st) es else Some (heap st, es)) as [[h1 e1]|] eqn:Ex; [|discriminate].
+    assert (Hh1 : exists ds, h1 = heap st ++ ds).
+    { destruct (lit_nested f); [apply (expand_app es (heap st) h1 e1 Ex) | inversion Ex; subst; exists []; rewrite app_nil_r; reflexivity]. }
+    destruct Hh1 as [ds Hds].
+    destruct (build I (di_empty I) e1) as [d|]; [|discriminate]. inversion H; subst. cbn.
+    rewrite !app_length. cbn. split; [lia|]. split; [exists (ds ++ [d]); rewrite app_assoc; reflexivity | reflexivity].
   Qed.
 
   Lemma eval_lit_len : forall st site es st' l, eval_lit I f st site es = Some (st', l) ->
     (length (heap st) <= length (heap st'))%nat /\
     (forall i, (i < length (heap st))%nat -> nth_error (heap st') i = nth_error (heap st) i).
   Proof.
-    intros st site es st' l H. unfold eval_lit in H. destruct (build I (di_empty I) es) as [d|]; [|discriminate].
+    intros st site es st' l H. unfold eval_lit in H. destruct (negb (lit_parses I es)); [discriminate|].
+    destruct (if lit_copy f && lit_nested f then expand I (heap st) es else Some (heap st, es)) as [[h1 e1]|] eqn:Ex; [|discriminate].
+    assert (Hh1 : exists ds, h1 = heap st ++ ds).
+    { destruct (lit_copy f && lit_nested f); [apply (expand_app es (heap st) h1 e1 Ex) | inversion Ex; subst; exists []; rewrite app_nil_r; reflexivity]. }
+    destruct Hh1 as [ds Hds].
+    destruct (build I (di_empty I) e1) as [d|]; [|discriminate].
     destruct (lit_copy f).
-    - inversion H; subst. cbn. rewrite app_length. cbn. split; [lia|]. intros i Hi. apply nth_error_app1. exact Hi.
+    - inversion H; subst. cbn. rewrite !app_length. cbn. split; [lia|]. intros i Hi.
+      rewrite <- app_assoc. apply nth_error_app1. exact Hi.
     - destruct (lookup (shared st) site).
       + inversion H; subst. split; [lia | reflexivity].
       + inversion H; subst. cbn. rewrite app_length. cbn. split; [lia|]. intros i Hi. apply nth_error_app1. exact Hi.
@@ -802,7 +895,7 @@ Section Fresh.
     intros o st. destruct o; cbn [step target].
     - destruct (eval_lit I f st site elems) as [[st' l]|] eqn:E; cbn; [|split; [lia | reflexivity]].
       destruct (eval_lit_len st site elems st' l E) as [H1 H2]. split; [exact H1 | intros i Hi _; apply H2; exact Hi].
-    - destruct (build I (di_empty I) elems); cbn; split; try lia; reflexivity.
+    - destruct (lit_parses I elems); cbn; split; try lia; reflexivity.
     - destruct (lookup (env st) f0) as [[]|]; cbn; try (split; [lia | reflexivity]).
       destruct (lookup (fdefs st) id) as [es|]; cbn; [|split; [lia | reflexivity]].
       destruct (eval_lit I f st id es) as [[st' l]|] eqn:E; cbn; [|split; [lia | reflexivity]].
@@ -853,17 +946,15 @@ Section Fresh.
   Lemma lit_step_fresh : forall o st l, lit_copy f = true ->
     (match o with OLit _ _ _ | OCall _ _ => True | _ => False end) ->
     snd (step I f o st) = RVal (VRef l) ->
-    l = length (heap st) /\ length (heap (fst (step I f o st))) = S (length (heap st)).
+    (length (heap st) <= l < length (heap (fst (step I f o st))))%nat.
   Proof.
     intros o st l Hc Ho H. destruct o; try contradiction; cbn [step] in *.
     - destruct (eval_lit I f st site elems) as [[st' l']|] eqn:E; cbn in *; [|discriminate].
-      inversion H; subst l'. destruct (eval_lit_copy st site elems st' l Hc E) as [H1 [[d H2] H3]].
-      split; [exact H1|]. rewrite H2, app_length. cbn. lia.
+      inversion H; subst l'. destruct (eval_lit_copy st site elems st' l Hc E) as [H1 _]. exact H1.
     - destruct (lookup (env st) f0) as [[]|]; cbn in *; try discriminate.
       destruct (lookup (fdefs st) id) as [es|]; cbn in *; [|discriminate].
       destruct (eval_lit I f st id es) as [[st' l']|] eqn:E; cbn in *; [|discriminate].
-      inversion H; subst l'. destruct (eval_lit_copy st id es st' l Hc E) as [H1 [[d H2] H3]].
-      split; [exact H1|]. rewrite H2, app_length. cbn. lia.
+      inversion H; subst l'. destruct (eval_lit_copy st id es st' l Hc E) as [H1 _]. exact H1.
   Qed.
 
   Lemma fresh_locs_bound : forall ops st, lit_copy f = true ->
@@ -877,7 +968,7 @@ Section Fresh.
     assert (Hweak : Forall (fun l => (length (heap st) <= l)%nat) (fresh_locs ops st1)).
     { eapply Forall_impl; [|exact IH1]. cbn. intros a Ha. lia. }
     destruct o; try (split; assumption);
-      destruct x as [v| | |]; try (split; assumption);
+      destruct x as [v| | | |]; try (split; assumption);
       destruct v; try (split; assumption).
     - destruct (Hf l Hc Logic.I eq_refl) as [H1 H2]. split.
       + constructor; [lia | exact Hweak].
@@ -918,10 +1009,10 @@ Proof.
 Qed.
 
 (* every dictionary the model can reach is the image of a well-formed finite map *)
-Lemma reachable_ref : forall f ops, sym_guard f = true -> char_guard f = true -> lit_copy f = true ->
+Lemma reachable_ref : forall f ops, sym_guard f = true -> char_guard f = true -> lit_copy f = true -> lit_nested f = true ->
   Forall (fun d => exists m, dict_ref d m) (heap (fst (model_run f ops))).
 Proof.
-  intros f ops Hs Hc Hl. destruct (refine f ops Hs Hc Hl) as [[Hh _] _].
+  intros f ops Hs Hc Hl Hn. destruct (refine f ops Hs Hc Hl Hn) as [[Hh _] _].
   induction Hh as [|d m h1 h2 Hd Hh IH]; constructor; [exists m; exact Hd | exact IH].
 Qed.
 
@@ -929,7 +1020,70 @@ Qed.
    branch of Join/Find/Drop/At/Size/Each/kg_write_dict no longer has the modelled shape, the
    theorems of Properties.v stop type-checking *)
 Lemma refine_shaped : forall shape_ok : bool, shape_ok = true -> forall f ops,
-  sym_guard f = true -> char_guard f = true -> lit_copy f = true ->
+  sym_guard f = true -> char_guard f = true -> lit_copy f = true -> lit_nested f = true ->
   state_ref (fst (model_run f ops)) (fst (spec_run ops)) /\
   Forall2 obs_ref (snd (model_run f ops)) (snd (spec_run ops)).
 Proof. intros _ _. exact refine. Qed.
+
+(* ------------------------------------------------------------------ NaN keys: the Klong-level view *)
+(* A Klong program cannot name a NaN object: every evaluation of an expression yielding NaN creates a new
+   one.  Reading the property at the Klong level means forgetting the object identities. *)
+Fixpoint erase_nan (v : val) : val :=
+  match v with
+  | VNan _ => VNan 0
+  | VList l => VList (map erase_nan l)
+  | _ => v
+  end.
+
+Fixpoint erase_arg (a : arg) : arg :=
+  match a with
+  | ALit v => ALit (erase_nan v)
+  | AVar n => AVar n
+  | APair k v => APair (erase_arg k) (erase_arg v)
+  end.
+
+Definition erase_op (o : op) : op :=
+  match o with
+  | OLit n s es => OLit n s (map erase_nan es)
+  | ODefFn f s es => ODefFn f s (map erase_nan es)
+  | OJoinL d b => OJoinL (erase_arg d) (erase_arg b)
+  | OJoinR a d => OJoinR (erase_arg a) (erase_arg d)
+  | OFind d k => OFind (erase_arg d) (erase_arg k)
+  | OAt d k => OAt (erase_arg d) (erase_arg k)
+  | ODrop k d => ODrop (erase_arg k) (erase_arg d)
+  | OSize d => OSize (erase_arg d)
+  | OEach d => OEach (erase_arg d)
+  | _ => o
+  end.
+
+
+(* ------------------------------------------------------------------ Each with an f that also looks at dictionaries *)
+(* when the operation f performs is an observation (it changes nothing and does not raise), f'd visits
+   exactly what plain Each visits, whatever f reads in between *)
+Lemma each_do_readonly : forall f o st l d fuel i acc,
+  fst (step (model_impl f) f o st) = st -> snd (step (model_impl f) f o st) <> RErr ->
+  nth_error (heap st) l = Some d -> (length d - i < fuel)%nat ->
+  each_do (model_impl f) f fuel i (length d) l o st acc =
+    (st, RVisits (rev acc ++ skipn i (di_visits (model_impl f) d))).
+Proof.
+  intros f o st l d fuel. induction fuel as [|fu IH]; intros i acc Hst Hne Hd Hf; [lia|].
+  cbn [each_do]. rewrite Hd. cbn [di_size model_impl]. rewrite Nat.eqb_refl. cbn [negb].
+  destruct (nth_error (di_visits (model_impl f) d) i) as [x|] eqn:E.
+  - destruct (step (model_impl f) f o st) as [st1 r] eqn:Es. cbn in Hst, Hne. subst st1.
+    assert (Hi : (i < length d)%nat).
+    { apply nth_error_Some. cbn [di_visits model_impl] in E. intro Hn.
+      assert (Hl : nth_error (map (fun kv => mkpair (fst kv) (snd kv)) d) i = None).
+      { apply nth_error_None. rewrite map_length. apply nth_error_None. exact Hn. }
+      cbn [di_visits model_impl] in E. congruence. }
+    assert (Hrec : each_do (model_impl f) f fu (S i) (length d) l o st (x :: acc) =
+                   (st, RVisits (rev (x :: acc) ++ skipn (S i) (di_visits (model_impl f) d)))).
+    { apply IH; try assumption; [reflexivity | lia]. }
+    assert (Hsk : skipn i (di_visits (model_impl f) d) = x :: skipn (S i) (di_visits (model_impl f) d)).
+    { clear -E. revert i E. generalize (di_visits (model_impl f) d). intro vs. induction vs as [|y vs IHv]; intros i E; destruct i; cbn in *; try discriminate.
+      - inversion E; reflexivity.
+      - apply IHv. exact E. }
+    destruct r; try (exfalso; apply Hne; reflexivity); rewrite Hrec, Hsk; cbn [rev]; rewrite <- app_assoc; reflexivity.
+  - assert (Hsk : skipn i (di_visits (model_impl f) d) = []).
+    { apply skipn_all2. apply nth_error_None. exact E. }
+    rewrite Hsk, app_nil_r. reflexivity.
+Qed.
